@@ -309,9 +309,9 @@ pub fn run(cx: &mut Ctx) {
     cx.assume("triangle ids are flat attributes decoded by rounding in the harness fragment shader, so last-bit differences between fan sub-triangles of one input triangle cannot masquerade as order dependence");
     cx.assume("pixels where two different triangles' solo depths are bit-equal (exact tie) are excluded, as the property's quantifier says");
     let (md, nh) = (cx.tier.pick(32, 64), cx.tier.pick(10, 12));
-    let n = cx.n(6_000, 200_000);
+    let n = cx.n(40_000, 600_000);
     cx.prop_check("histories", n, move || case_strategy(md, nh), |c, obs| check(c, obs));
-    let n = cx.n(10_000, 300_000);
+    let n = cx.n(60_000, 1_000_000);
     cx.prop_check("layers", n, move || layer_strategy(md), |c, obs| check_layers(c, obs));
 }
 
